@@ -55,6 +55,19 @@ func rvPtr(rv reflect.Value) unsafe.Pointer {
 	return (*rvtype)(unsafe.Pointer(&rv)).ptr
 }
 
+// structAddr returns the address of the struct value rv. A struct that is not
+// addressable and is stored as a bare pointer (see isPointerShaped: a map value, an
+// interface-held value, an element of a non-addressable array) has no memory of its
+// own, rvPtr would yield the pointer it wraps: such a value is copied first.
+func structAddr(rv reflect.Value) unsafe.Pointer {
+	if rv.IsValid() && rv.Kind() == reflect.Struct && !rv.CanAddr() && isPointerShaped(rv.Type()) {
+		c := reflect.New(rv.Type()).Elem()
+		c.Set(rv)
+		rv = c
+	}
+	return rvPtr(rv)
+}
+
 func rvType(rv reflect.Value) uintptr {
 	return (*rvtype)(unsafe.Pointer(&rv)).abiType
 }
